@@ -47,6 +47,10 @@ def gen_dur(rng, S, M, J, kind, env=None):
                 for _ in range(J)]
     if kind == "zero":  # zero durations allowed (hand-supplied data)
         return [[rng.choice([0, 0, 1, 2, 3]) for _ in range(MT)] for _ in range(J)]
+    if kind == "huge":  # one machine per stage with durations above the schedule sentinel (outside WF.dur_lt)
+        slow = [rng.randrange(M) for _ in range(S)]
+        return [[(2_000_000 + rng.randint(0, 5) if (m % M) == slow[m // M] else rng.randint(1, 3)) for m in range(MT)]
+                for _ in range(J)]
     if kind == "fast":  # short rows that finish early next to slow batch-mates
         return [[1 for _ in range(MT)] for _ in range(J)]
     return [[rng.randint(1, 9) for _ in range(MT)] for _ in range(J)]
@@ -263,13 +267,15 @@ def judge_reward(ctx, inst, ep: Ep, r: int, f: dict, line: str):
         ctx.violation("ffsp:reward-not-written", "episode finished but the reward is still -inf",
                       {"inst": inst, "actions": ep.actions[r]})
     elif "mk" in f and -int(f["mk"]) != rr:
-        ctx.violation("ffsp:reward-ne-makespan", "reward of the real env differs from minus the Spec makespan of its schedule",
+        key = "ffsp:reward-ne-makespan" + ("" if wf(inst) else ":sentinel")
+        ctx.violation(key, "reward of the real env differs from minus the Spec makespan of its schedule"
+                      + ("" if wf(inst) else " (a duration ≥ 999999 on an unused machine beats the 'unset' sentinel)"),
                       {"inst": inst, "actions": ep.actions[r], "real_reward": rr, "spec_makespan": int(f["mk"]),
                        "schedule": real_sched(ep.td, r), "lean_line": line})
 
 
 # ---- exhaustive exploration of the real env (C05) --------------------------------------------------
-def real_bfs(env, inst, max_states: int = 20000):
+def real_bfs(env, inst, max_states: int = 6000):
     """All complete mask-confined solo episodes of the real env on `inst` (frontier expanded as one
     batch per level).  Returns list of (actions, schedule(real-job columns), reward)."""
     J, S, M = inst["J"], inst["S"], inst["M"]
@@ -278,10 +284,14 @@ def real_bfs(env, inst, max_states: int = 20000):
     frontier = [[]]
     finals = []
     total = 0
+    depth = 0
     while frontier:
         total += len(frontier)
+        depth += 1
         if total > max_states:
-            raise RuntimeError("bfs too large")
+            raise RuntimeError("more than %d states" % max_states)
+        if depth > step_bound(inst) + 2:
+            raise RuntimeError("an episode is longer than the step bound %d" % step_bound(inst))
         # replay every prefix from reset, one prefix per *separate* solo env call would be slow: rows are
         # independent as long as not all rows are finished, so we add a sentinel row that never finishes
         # first ... simpler and safe: drive each prefix solo.
